@@ -8,7 +8,7 @@
 EXTENDS ManagerProps
 CONSTANTS MaxReqs, V1
 
-Causes == {"client", "inrange", "linkfault", "timeout", "outrange", "unsafe"}
+Causes == {"client", "inrange", "linkfault", "timeout", "outrange", "unsafe", "reconnfail"}
 VARIABLES pc, should, commIssue, devUnsafe, n, obs, bad, plan
 vars == <<pc, should, commIssue, devUnsafe, n, obs, bad, plan>>
 
@@ -48,6 +48,9 @@ Request ==
                                        /\ commIssue' = FALSE /\ UNCHANGED <<pc, devUnsafe>>
                    [] c = "linkfault" -> /\ Emit([E0("conn") EXCEPT !.cause = c, !.code = DeviceError(V1)])
                                          /\ commIssue' = TRUE /\ UNCHANGED <<pc, devUnsafe>>
+                   [] c = "reconnfail" -> \* the link is (or goes) down and cannot be re-opened during this request
+                                          /\ Emit([E0("conn") EXCEPT !.cause = "linkfault", !.code = DeviceError(V1)])
+                                          /\ commIssue' = TRUE /\ UNCHANGED <<pc, devUnsafe>>
                    [] c = "outrange" -> \* HSM2DongleError in sign / getPubKey: -906 and shutdown
                                         /\ Emit([E0("conn") EXCEPT !.cause = c, !.code = -906, !.stopreq = TRUE])
                                         /\ pc' = "stopping" /\ UNCHANGED <<commIssue, devUnsafe>>
